@@ -28,7 +28,7 @@ var c05PoolT = append(append([]string{}, c05PoolQ...), "0.js", "~.js", "lib/.kee
 
 var c05PatQ = []string{
 	"*.js", "**/*.js", "src/*", "*/*", "**", "src/**", "**/sub/*", "*.{js,ts}", "s*/*.js", "**/*", "*", "lib/*.ts",
-	"**/g.*", "*.ts", "src/*.js", "**/*.ts", "?.j*", "[a-z].j*", "src/**/*.js", "**/{c,g}.js",
+	"**/g.*", "*.ts", "src/*.js", "**/*.ts", "?.j*", "[a-z].j*", "src/**/*.js", "**/{c,g}.js", "src/*/g.js",
 }
 var c05PatT = append(append([]string{}, c05PatQ...), "**/.*", "src/.*", "lib/*", "**/src/*", "*/*/*", "zz.*", "**/*.{js,ts}", "*/sub/**", "[!a]*.js")
 
@@ -130,7 +130,8 @@ func c05Worker(c *core.Ctx) {
 		if !wl.Begin(blk, mask%64, func() any { return cs }) {
 			continue
 		}
-		root := filepath.Join(base, fmt.Sprintf("t%d", mask))
+		// (the project sits below a dot-directory: only the path relative to the spokfile counts as hidden)
+		root := filepath.Join(base, ".dotted.parent", fmt.Sprintf("t%d", mask))
 		for _, v := range c05Judge(root, cs, res) {
 			v.Case = core.JSON(cs)
 			res.Violate(v)
